@@ -206,14 +206,15 @@ theorem toMs_bridgeV (c : NumCodec) (sa : Growth → String) {g : Graph} (hv : v
 /-! ### the composition -/
 
 /-- **graph → ms → graph with exponential epochs** on valid ms-expressible graphs with exact ancestry
-proportions, when `from_ms` accepts the printed command and the command lies in `Tame'` -/
-theorem ms_roundtrip_growth_sem_partial (c : NumCodec) (sa : Growth → String) {g : Graph} (hv : validGraph g = true)
+proportions, when `from_ms` accepts the printed command and C08 applies to it (`hag`) -/
+theorem ms_roundtrip_growth_sem_of_agree (c : NumCodec) (sa : Growth → String) {g : Graph} (hv : validGraph g = true)
     (hx : MsExpressible g = true) (hex : ExactProportions g = true)
     {N0 : Q} (hN : 0 < N0) {samples : Option (List Int)} (hs : samplesOk g samples = true)
     {toks : List (Tok Growth)} (htoks : toMs g N0 samples = .ok toks) (hc : CodecCovers c toks)
     (hsa : GrowthPrinter sa (epochGrowths g N0))
     {mg : MsGraph} (hfrom : fromMs (renderG c sa toks) N0 none = .ok mg)
-    {pr : Demes.Spec.MsSem.Parsed} (hpr : parse (renderG c sa toks) = .ok pr) (ht : Tame' pr = true) :
+    (hag : ∀ sem, msSem (renderG c sa toks) N0 = .ok sem → PlainTokens (renderG c sa toks) = true →
+      SemAgree (msSem (renderG c sa toks) N0) (resultSem mg) = true) :
     ∃ sem rs gs, msSem (renderG c sa toks) N0 = .ok sem ∧ resultSem mg = .ok rs
       ∧ graphSem (inGenerations g) none = .ok gs
       ∧ semEquiv sem rs = true
@@ -229,7 +230,7 @@ theorem ms_roundtrip_growth_sem_partial (c : NumCodec) (sa : Growth → String) 
       (fun d hd e he => mem_epochGrowths hd he) (fun G G' h1 h2 h3 => hsa.congr G h1 G' h2 h3)
       samples hsemG hwf hchron hdim
   -- C08
-  have hagree := fromMs_sem_plain hfrom hsem b3 hpr ht
+  have hagree := hag _ hsem b3
   rw [hsem] at hagree
   cases hrs : resultSem mg with
   | error e => rw [hrs] at hagree; simp [SemAgree] at hagree
@@ -245,6 +246,22 @@ theorem ms_roundtrip_growth_sem_partial (c : NumCodec) (sa : Growth → String) 
       (MsRT.Tr.graphSem_tiles (Demes.Proofs.FromMs.fromMs_valid hfrom)
         (show graphSemWith mg.size mg.graph _ = .ok rs from hrs) p hp).1
     exact ⟨_, rs, _, hsem, rfl, graphSem_ok cl hx', heq, hrefA, semRefines_of_equiv heq hrefA hA hB⟩
+
+/-- **graph → ms → graph with exponential epochs** on valid ms-expressible graphs with exact ancestry
+proportions, when `from_ms` accepts the printed command and the command lies in `Tame'` -/
+theorem ms_roundtrip_growth_sem_partial (c : NumCodec) (sa : Growth → String) {g : Graph} (hv : validGraph g = true)
+    (hx : MsExpressible g = true) (hex : ExactProportions g = true)
+    {N0 : Q} (hN : 0 < N0) {samples : Option (List Int)} (hs : samplesOk g samples = true)
+    {toks : List (Tok Growth)} (htoks : toMs g N0 samples = .ok toks) (hc : CodecCovers c toks)
+    (hsa : GrowthPrinter sa (epochGrowths g N0))
+    {mg : MsGraph} (hfrom : fromMs (renderG c sa toks) N0 none = .ok mg)
+    {pr : Demes.Spec.MsSem.Parsed} (hpr : parse (renderG c sa toks) = .ok pr) (ht : Tame' pr = true) :
+    ∃ sem rs gs, msSem (renderG c sa toks) N0 = .ok sem ∧ resultSem mg = .ok rs
+      ∧ graphSem (inGenerations g) none = .ok gs
+      ∧ semEquiv sem rs = true
+      ∧ SemRefines sem (regrow (growthVal sa) N0 gs) ∧ SemRefines rs (regrow (growthVal sa) N0 gs) :=
+  ms_roundtrip_growth_sem_of_agree c sa hv hx hex hN hs htoks hc hsa hfrom
+    (fun _ hsem hpl => fromMs_sem_plain hfrom hsem hpl hpr ht)
 
 /-- the command is read by the string parser as a command in `Tame'` -/
 theorem toMs_tameV (c : NumCodec) (sa : Growth → String) {g : Graph} (hv : validGraph g = true)
